@@ -1,5 +1,227 @@
-//! C20 harness — to be written (see /verif/mc/HARNESS_GUIDE.md).
-fn main() {
-    eprintln!("MACHINERY-ERROR: harness C20 not built yet");
-    std::process::exit(2);
+//! C20 — all matrix backends give the same answers.
+//!
+//! E1, differential: one generic evaluator per operation family is instantiated at
+//! `DenseMatrix<f64>`, `ndarray::Array2<f64>` and `nalgebra::DMatrix<f64>`; every operation instance
+//! x operand shape(s) x value alphabet x operand layout is executed on all three and judged against
+//! a plain row-major `Vec<f64>` reference model and against each other. E2: operation chains on the
+//! three backends in lock-step. Decompositions and deterministic estimators on small data catalogues.
+
+mod bk;
+mod chain;
+mod est;
+mod judge;
+mod model;
+mod ops;
+
+use mc_core::{self as mc, json, Harness, Job, Plan, Tier, Value};
+use model::{fill, Op, FILLS};
+use std::cell::RefCell;
+use std::collections::HashMap;
+use std::rc::Rc;
+
+struct C20;
+
+thread_local! {
+    static OPS: RefCell<HashMap<(u8, usize, usize, bool), Rc<Vec<Op>>>> = RefCell::new(HashMap::new());
 }
+
+fn ops_for(kind: u8, r: usize, c: usize, t: bool) -> Rc<Vec<Op>> {
+    OPS.with(|m| {
+        m.borrow_mut()
+            .entry((kind, r, c, t))
+            .or_insert_with(|| {
+                Rc::new(match kind {
+                    0 => ops::unary(r, c, t),
+                    1 => ops::binary(),
+                    2 => ops::vec_unary(c, t),
+                    _ => ops::vec_binary(),
+                })
+            })
+            .clone()
+    })
+}
+
+impl Harness for C20 {
+    fn id(&self) -> &'static str {
+        "C20"
+    }
+
+    fn plan(&self, tier: Tier, seed: u64) -> Plan {
+        let t = tier.is_thorough();
+        let nmax = if t { 8 } else { 4 };
+        let vmax = if t { 8 } else { 5 };
+        let mut jobs = Vec::new();
+        let mut shapes: Vec<(usize, usize)> = (1..=nmax).flat_map(|r| (1..=nmax).map(move |c| (r, c))).collect();
+        shapes.sort_by_key(|(r, c)| (r * c, *r));
+        for &(r, c) in &shapes {
+            jobs.push(Job::new(format!("un-{}x{}", r, c), json!({"kind": "un", "r": r, "c": c, "t": t, "seed": seed})));
+        }
+        for n in 1..=vmax {
+            jobs.push(Job::new(format!("vec-n{}", n), json!({"kind": "vec", "n": n, "t": t, "seed": seed})));
+            jobs.push(Job::new(format!("vbin-n{}", n), json!({"kind": "vbin", "n": n, "nmax": vmax, "t": t, "seed": seed})));
+        }
+        // estimators and decompositions (before the long list of binary-operation jobs: the
+        // termination probes of the hang-prone estimators should start early)
+        for (e, (name, _, _)) in est::ESTS.iter().enumerate() {
+            let firsts = match (e >= est::FIRST_DECOMPOSITION, t) {
+                (true, false) => 3,
+                (true, true) => 25,
+                (false, false) => 6,
+                (false, true) => 9,
+            };
+            for f in 0..firsts {
+                jobs.push(Job::new(format!("est-{}-first{}", name, f), json!({"kind": "est", "e": e, "first": f, "t": t, "seed": seed})));
+            }
+        }
+        for &(r, c) in &shapes {
+            for rb in 1..=nmax {
+                jobs.push(Job::new(format!("bin-{}x{}-with-{}xN", r, c, rb), json!({"kind": "bin", "r": r, "c": c, "rb": rb, "nmax": nmax, "t": t, "seed": seed})));
+            }
+        }
+        Plan {
+            jobs,
+            budget_s: if t { 2400 } else { 40 },
+            case_deadline_ms: 20_000,
+            floors: vec![
+                ("cases_in_domain", 10_000),
+                ("cases_shape_mismatch", 10_000),
+                ("mismatch_rejected_by_all_three", 1_000),
+                ("cases_with_transposed_layout_operand", 5_000),
+            ],
+            bounds: json!({
+                "matrix_shapes": format!("every 1<=r,c<={}", nmax),
+                "value_alphabets": FILLS,
+                "layouts": bk::LAYOUTS,
+                "seed": format!("VERIF_SEED {} selects the power/odd multiple applied to the index-coded alphabet (8 fixed multipliers, 0 = plain)", seed),
+            }),
+        }
+    }
+
+    fn run(&self, job: &Job) {
+        let t = job.b("t");
+        let seed = job.params["seed"].as_u64().unwrap_or(0);
+        match job.kind() {
+            "un" => {
+                let (r, c) = (job.u("r"), job.u("c"));
+                let f = mc::choose(FILLS.len());
+                let la = mc::choose(2);
+                let ops = ops_for(0, r, c, t);
+                let op = &ops[mc::choose(ops.len())];
+                judge::case(op, &fill(f, r, c, 0, seed), la, None);
+            }
+            "bin" => {
+                let (r, c, rb) = (job.u("r"), job.u("c"), job.u("rb"));
+                let cb = 1 + mc::choose(job.u("nmax"));
+                let f = mc::choose(FILLS.len());
+                let la = mc::choose(2);
+                let lb = mc::choose(2);
+                let ops = ops_for(1, 0, 0, t);
+                let op = &ops[mc::choose(ops.len())];
+                judge::case(op, &fill(f, r, c, 0, seed), la, Some((&fill(f, rb, cb, 1, seed), lb)));
+            }
+            "vec" => {
+                let n = job.u("n");
+                let f = mc::choose(FILLS.len());
+                let src = mc::choose(3);
+                let ops = ops_for(2, 1, n, t);
+                let op = &ops[mc::choose(ops.len())];
+                judge::case(op, &fill(f, 1, n, 0, seed), src, None);
+            }
+            "vbin" => {
+                let n = job.u("n");
+                let nb = 1 + mc::choose(job.u("nmax"));
+                let f = mc::choose(FILLS.len());
+                let sa = mc::choose(3);
+                let sb = mc::choose(3);
+                let ops = ops_for(3, 0, 0, t);
+                let op = &ops[mc::choose(ops.len())];
+                judge::case(op, &fill(f, 1, n, 0, seed), sa, Some((&fill(f, 1, nb, 1, seed), sb)));
+            }
+            "est" => est_case(job, t, seed),
+            "chain" => {
+                let acts: Vec<u8> = job.params["acts"].as_array().map(|a| a.iter().map(|x| x.as_u64().unwrap_or(0) as u8).collect()).unwrap_or_default();
+                chain::run_replay(job.u("init"), &acts);
+            }
+            other => panic!("unknown job kind {}", other),
+        }
+    }
+
+    fn extra(&self, tier: Tier, _seed: u64) -> Vec<mc::ExtraResult> {
+        let depth = if tier.is_thorough() { 5 } else { 3 };
+        vec![mc::bfs::search("operation chains on the three backends in lock-step", &chain::Chains, depth, 6_000_000)]
+    }
+
+    fn rule(&self) -> String {
+        "one execution = one operation instance on one fully determined operand tuple (shape(s), value alphabet, layout(s)) run on all three backends; non-trivial = the operands are inside the operation's domain; distinct = distinct digest of the three backends' returned values / panics".into()
+    }
+
+    fn assumptions(&self) -> Vec<String> {
+        vec![
+            "operands are brought into each backend through zeros + set (+ transpose); that this reproduces the logical content is checked in every case through shape + get".into(),
+            "no RNG is involved in any explored path (BaseMatrix::rand is excluded)".into(),
+        ]
+    }
+}
+
+/// data points: the quick tier uses the first 6, the thorough tier the whole 3x3 grid
+const LATTICE: [(f64, f64); 9] = [(0.0, 0.0), (1.0, 0.0), (0.0, 1.0), (1.0, 1.0), (2.0, 1.0), (1.0, 2.0), (2.0, 0.0), (0.0, 2.0), (2.0, 2.0)];
+const SIGMA5: [f64; 5] = [0.0, 1.0, -1.0, 2.0, -2.0];
+const Y_REG: [[f64; 5]; 3] = [[1.0, 2.0, 3.0, 5.0, 4.0], [0.0, -1.0, 4.0, 2.0, -2.0], [2.0, 2.0, -3.0, 1.0, 2.0]];
+const Y_CLS: [[f64; 5]; 6] = [[0.0, 1.0, 0.0, 1.0, 1.0], [0.0, 0.0, 1.0, 1.0, 0.0], [1.0, 0.0, 0.0, 1.0, 0.0], [0.0, 1.0, 1.0, 1.0, 0.0], [0.0, 1.0, 2.0, 1.0, 2.0], [2.0, 0.0, 1.0, 0.0, 1.0]];
+const SIGMA3: [f64; 3] = [0.0, 1.0, -1.0];
+
+/// One estimator / decomposition case: the data are drawn from the job's finite catalogue.
+fn est_case(job: &Job, t: bool, seed: u64) {
+    let e = job.u("e");
+    let first = job.u("first");
+    let (_, ncfg, target) = est::ESTS[e];
+    let scale = [1.0, 2.0, 0.5, 4.0, 0.25, 8.0, 2.0, 0.5][(seed % 8) as usize];
+    let data = if e >= est::FIRST_DECOMPOSITION {
+        // every 3x3 matrix over {0,1,-1} (first entry fixed by the job); made symmetric / SPD where the decomposition needs it
+        // (thorough: over {0,1,-1,2,-2}, first two entries fixed by the job)
+        let mut v = if t { vec![SIGMA5[first / 5], SIGMA5[first % 5]] } else { vec![SIGMA3[first]] };
+        while v.len() < 9 {
+            v.push(if t { mc::pick(&SIGMA5) } else { mc::pick(&SIGMA3) });
+        }
+        let a = model::M { r: 3, c: 3, v: v.iter().map(|x| x * scale).collect() };
+        let x = match e {
+            26 => a.zip(&a.tr(), |p, q| p + q),
+            27 => a.tr().mul(&a).zip(&model::M::new(3, 3, |i, j| if i == j { 1.0 } else { 0.0 }), |p, q| p + q),
+            _ => a,
+        };
+        est::Data { x, y: vec![0.0; 3], q: model::M::new(1, 3, |_, _| 0.0) }
+    } else {
+        // n rows from the 6-point lattice (first row fixed by the job), targets from the pattern list
+        let n = if t { 5 } else { 4 };
+        let lat = &LATTICE[..if t { 9 } else { 6 }];
+        let mut rows = vec![lat[first]];
+        for i in 1..n {
+            // rotated so that the first explored data set of every job has distinct rows
+            rows.push(lat[(mc::choose(lat.len()) + first + i + 1) % lat.len()]);
+        }
+        let y: Vec<f64> = match target {
+            0 => Y_REG[mc::choose(Y_REG.len())][..n].to_vec(),
+            1 => Y_CLS[mc::choose(4)][..n].to_vec(),
+            2 => Y_CLS[mc::choose(Y_CLS.len())][..n].to_vec(),
+            _ => vec![0.0; n],
+        };
+        // integer-valued (count / category) inputs are not scaled
+        let sc = if matches!(e, 6 | 7 | 8 | 18) { 1.0 } else { scale };
+        est::Data { x: model::M::new(n, 2, |i, j| if j == 0 { rows[i].0 * sc } else { rows[i].1 * sc }), y, q: model::M::new(9, 2, |i, j| (if j == 0 { i / 3 } else { i % 3 }) as f64 * sc) }
+    };
+    // the quick tier runs the (slow, iterative) logistic regression with one regularisation only
+    let cfg = mc::choose(if !t && e == 4 { 1 } else { ncfg });
+    let lx = mc::choose(2);
+    est::run_case(&job.name, e, cfg, &data, lx);
+}
+
+fn main() {
+    let args: Vec<String> = std::env::args().collect();
+    if args.len() >= 2 && args[1] == est::PROBE_FLAG {
+        est::probe_main();
+    }
+    mc::main(C20)
+}
+
+#[allow(dead_code)]
+fn _v(_: Value) {}
